@@ -133,8 +133,56 @@ func runC09(cs core.Case, verbose bool) core.CaseResult {
 			samples = append(samples, s)
 		}
 	}
+	// systematic part: every precompile step of the library, made to succeed inside a sub-program whose
+	// frame is thrown away afterwards (REVERT / INVALID at the end of the sub-program, caught by the
+	// caller), and inside a top-level program that reverts as a whole
+	lib := r.lib(1)
+	for k, st := range lib {
+		if !st.Precompile || res.Inconclusive != "" {
+			continue
+		}
+		st.Gas = 1_500_000
+		end := []string{"revert", "invalid"}[k%2]
+		// with and without earlier native actions in the discarded frame (an earlier snapshot restored
+		// last can hide what a later one leaves behind)
+		for pi, pre := range [][]pstep{{lib[0], lib[10]}, {lib[10]}, {}} {
+			pre = append([]pstep{}, pre...)
+			for i := range pre {
+				pre[i].Gas = 900_000
+			}
+			sub := pcontract{Steps: append(pre, st), End: end}
+			top := pcontract{Steps: []pstep{{Label: "call sub1", Sub: 1}}, End: "stop"}
+			r.runAmple([]pcontract{top, sub}, fmt.Sprintf("discarded-sub/pre%d/%s", pi, st.Label))
+		}
+		if k%3 == 0 {
+			lib0 := r.lib(0)
+			whole := pcontract{Steps: append(append([]pstep{}, lib0[0], lib0[10]), lib0[k]), End: "revert"}
+			for i := range whole.Steps {
+				whole.Steps[i].Gas = 1_500_000
+			}
+			r.runAmple([]pcontract{whole}, "reverted-top/"+st.Label)
+		}
+	}
 	res.Sample = map[string]interface{}{"spec": spec, "programs": samples}
 	return res
+}
+
+// runAmple executes one program once with ample gas (plain and inside the catching wrapper) and compares it with its twin.
+func (r *c09Run) runAmple(cons []pcontract, what string) {
+	for _, wrap := range []bool{false, true} {
+		r.wrap = wrap
+		a, err := r.execute(cons, nil, false, 25_000_000, false)
+		r.wrap = false
+		if err != nil {
+			r.res.Inconclusive = err.Error()
+			return
+		}
+		r.res.Count("systematic_discard_executions", 1)
+		if r.verb {
+			fmt.Printf("SYSTEMATIC %s wrap=%v: tx ok=%v vm=%q slots=%v innerOK=%v\n", what, wrap, a.res.OK() && a.res.Rsp != nil && !a.res.Rsp.Failed(), a.res.VmError(), a.slots, a.innerOK)
+		}
+		r.compare(cons, a, 25_000_000, what, "systematic")
+	}
 }
 
 // ---- step library ----------------------------------------------------------------------
@@ -494,6 +542,11 @@ func (r *c09Run) compare(cons []pcontract, a *execOut, gas uint64, desc, class s
 				kept++
 			} else if !txOK || a.slots[i][j] == 1 || i > 0 {
 				disc++
+				if a.slots[i][j] == 2 {
+					// the call itself succeeded; an enclosing frame (or the transaction) threw it away afterwards
+					r.res.Count("succeeded_then_discarded", 1)
+					r.res.Count("succeeded_then_discarded/"+strings.SplitN(s.Label, "(", 2)[0], 1)
+				}
 			}
 		}
 	}
@@ -530,11 +583,16 @@ func (r *c09Run) compare(cons []pcontract, a *execOut, gas uint64, desc, class s
 	}
 	da, db := c.Dump(a.ctx), c.Dump(b.ctx)
 	var lines []string
+	onlyTokenStorage := true
+	tokens := map[string]bool{string(r.e.USDT.ERC20.Bytes()): true, string(r.e.XTK.ERC20.Bytes()): true, string(r.e.FX.ERC20.Bytes()): true}
 	for _, d := range chain.Diff(da, db) {
 		if c09Allowed(d, skip) {
 			continue
 		}
 		lines = append(lines, d.String())
+		if !(d.Store == evmtypes.StoreKey && len(d.Key) >= 21 && d.Key[0] == 0x02 && tokens[string(d.Key[1:21])]) {
+			onlyTokenStorage = false
+		}
 	}
 	sig := fmt.Sprintf("%s/k%d/d%d/%v/%x", class, kept, disc, txOK, hash8(desc))
 	if kept > 0 && disc > 0 {
@@ -545,6 +603,24 @@ func (r *c09Run) compare(cons []pcontract, a *execOut, gas uint64, desc, class s
 			lines = append(lines[:10], fmt.Sprintf("… %d more", len(lines)-10))
 		}
 		key := "C09/partial-effects/" + c09Culprit(cons, a, keep, txOK)
+		// The difference is confined to the storage of a bridged token contract and the program keeps a
+		// precompile call that writes to token contracts through the keeper (a nested state DB committed
+		// under the running EVM): that is finding F9 (C08/pending-evm-writes-lost) seen from here: a
+		// discarded call that touched the token makes the outer frame overwrite the nested write.
+		if onlyTokenStorage && txOK {
+			var nested []string
+			for i, pc := range cons {
+				for j, st := range pc.Steps {
+					if keep[i][j] && (strings.HasPrefix(st.Label, "crosschain.executeClaim") || strings.HasPrefix(st.Label, "crosschain.bridgeCall") || strings.HasPrefix(st.Label, "crosschain.cancelSendToExternal")) {
+						nested = append(nested, strings.SplitN(st.Label, "(", 2)[0])
+					}
+				}
+			}
+			if len(nested) > 0 {
+				sort.Strings(nested)
+				key = "C09/pending-evm-writes-lost/" + strings.Join(uniq(nested), "+")
+			}
+		}
 		r.res.Violate(key, "program %s run with gas limit %d (tx ok=%v, vm error %q, kept steps %v): state differs from the twin in which the discarded calls never ran:\n%s", desc, gas, txOK, a.res.VmError(), a.slots, strings.Join(lines, "\n"))
 	}
 	if txOK && strings.Join(a.logs, "\n") != strings.Join(b.logs, "\n") {
@@ -612,4 +688,14 @@ func c09Allowed(d chain.DiffEntry, progs map[string]bool) bool {
 
 func chainCreateAddress(from common.Address, nonce uint64) common.Address {
 	return ethcrypto.CreateAddress(from, nonce)
+}
+
+func uniq(xs []string) []string {
+	var out []string
+	for i, x := range xs {
+		if i == 0 || x != xs[i-1] {
+			out = append(out, x)
+		}
+	}
+	return out
 }
